@@ -158,6 +158,25 @@ impl<T> M2Array<T> {
     }
 }
 
+/// Capacity to reserve before reading `count` elements that take at least
+/// `min_elem_size` bytes each from the current position of `reader`.
+///
+/// The count comes from the file, so it is cut down to the number of elements the
+/// rest of the stream can hold; reading a larger count fails at the end of the
+/// stream anyway.
+pub(crate) fn capacity_for<R: Seek>(
+    reader: &mut R,
+    count: usize,
+    min_elem_size: usize,
+) -> Result<usize> {
+    let pos = reader.stream_position()?;
+    let end = reader.seek(SeekFrom::End(0))?;
+    reader.seek(SeekFrom::Start(pos))?;
+
+    let fit = end.saturating_sub(pos) / min_elem_size.max(1) as u64;
+    Ok(count.min(usize::try_from(fit).unwrap_or(usize::MAX)))
+}
+
 /// Reads data at an array reference location
 pub fn read_array<T, R, F>(reader: &mut R, array: &M2Array<T>, parse_fn: F) -> Result<Vec<T>>
 where
@@ -174,7 +193,9 @@ where
         .map_err(M2Error::Io)?;
 
     // Read each element
-    let mut result = Vec::with_capacity(array.count as usize);
+    // The in-memory size of `T` stands in for its size in the file: this is only a hint
+    let capacity = capacity_for(reader, array.count as usize, std::mem::size_of::<T>())?;
+    let mut result = Vec::with_capacity(capacity);
     for _ in 0..array.count {
         result.push(parse_fn(reader)?);
     }
